@@ -583,7 +583,7 @@ def expand_type(srcrel, kind, name, keep=None):
     return text + '\n', meta
 
 
-def assemble(unit_path):
+def assemble(unit_path, demote=()):
     """-> (generated text, metas)  where each meta has gen_lines=[lo,hi] in the generated file"""
     out_lines = []
     metas = []
@@ -605,7 +605,9 @@ def assemble(unit_path):
         rel = os.path.relpath(path, ROOT)
         for kind, it in parse_fn_blocks(lines, rel):
             if kind == 'fn':
-                t, m = expand_fn(it)
+                t, m = expand_fn(it, assumed_override=(it.key in demote))
+                if it.key in demote:
+                    m['demoted'] = True
                 emit(t, m)
                 continue
             s = it.strip()
@@ -625,7 +627,9 @@ def assemble(unit_path):
                 keys = [a[1]]
                 if a[1] not in cf:
                     raise AssembleError('%s: no contract %s in %s' % (rel, a[1], a[0]))
-                t, m = expand_fn(cf[a[1]], assumed_override=('assumed' in a[2:]))
+                t, m = expand_fn(cf[a[1]], assumed_override=('assumed' in a[2:]) or (a[1] in demote))
+                if a[1] in demote and 'assumed' not in a[2:]:
+                    m['demoted'] = True
                 emit(t, m)
             elif s.startswith('//@'):
                 raise AssembleError('%s: unknown directive `%s`' % (rel, s))
